@@ -45,6 +45,9 @@ TVerifyInternal == /\ IsEv("VerifyInternal") /\ NoPanic
 TDudect ==     /\ IsEv("Dudect") /\ NoPanic
                /\ Dudect(Ev.fault, Ev.at)
                /\ out'.ok = Ev.ok /\ out'.rnglog = Ev.rnglog
+TOsRng ==      /\ IsEv("OsRng") /\ NoPanic
+               /\ OsRng(Ev.entry, Ev.healthy)
+               /\ out'.ok = Ev.ok
 TSer ==        /\ IsEv("Ser") /\ NoPanic
                /\ Serialise(Ev.h, Ev.bytes)
                /\ Ev.len = IF keys[Ev.h].kind = "pk" THEN PkLen[keys[Ev.h].set] ELSE SkLen[keys[Ev.h].set]
@@ -64,6 +67,7 @@ TDrop ==       /\ IsEv("Drop") /\ NoPanic
                /\ Ev.nonzero_before >= 32          \* a live key is not blank: at least its 64-byte hash field is set
                /\ Drop(Ev.h)
                /\ out'.nonzero_after = Ev.nonzero_after
+               /\ Ev.nonzero_after_free <= 64     \* a boxed copy, dropped and FREED: only allocator bookkeeping may remain
 \* C05: EVERY single-bit position of the field was flipped and none of the flipped tuples verified.
 \* The base tuple must be issued and verify; each flipped tuple differs from every issued one in the
 \* flipped component (or is a foreign key), so the ideal functionality rejects it.
@@ -97,7 +101,7 @@ TReset ==      /\ IsEv("Reset")
 \* a remark of the harness about how the following lines were selected (no call of the library)
 TNote ==       IsEv("Note") /\ UNCHANGED << keys, issued, sigof, ser, fmt, out >>
 
-TNext == TReset \/ TNote \/ TKeyGenSeed \/ TKeyGenRng \/ TSign \/ TVerify \/ TSignInternal \/ TVerifyInternal \/ TDudect \/ TSer \/ TDeser \/ TDerive \/ TClone \/ TDrop
+TNext == TReset \/ TNote \/ TKeyGenSeed \/ TKeyGenRng \/ TSign \/ TVerify \/ TSignInternal \/ TVerifyInternal \/ TDudect \/ TOsRng \/ TSer \/ TDeser \/ TDerive \/ TClone \/ TDrop
          \/ TFlipSweep \/ TDrawSweep \/ TFresh
 TSpec == TInit /\ [][TNext]_tvars
 
